@@ -234,8 +234,12 @@ pub fn run_case(c: &Case) -> (String, String) {
     let mut order_ambiguous = false;                  // index-based insert while a dropped bar may or may not still count as a member
     // every row a legitimate paint can have produced so far: the wrapped rows of every log line and of every rendering any bar has had
     let mut legit: std::collections::HashSet<String> = std::collections::HashSet::new();
+    // C05 for a MultiProgress: instants of the frames painted by ordinary (non-forced) requests of unfinished members
+    let mut ordinary_frames: Vec<u64> = Vec::new();
     for (k_op, op) in c.ops.iter().enumerate() {
         let flushes_before = rec.flushes();
+        let ordinary = match op { MOp::Bar(k, BOp::Tick | BOp::Inc(_) | BOp::Dec(_) | BOp::SetPos(_) | BOp::Msg(_) | BOp::Prefix(_) | BOp::Len(_)) =>
+            bars.get(*k).map_or(false, |b| !b.removed && !b.hidden && b.pb.as_ref().map_or(false, |p| !p.is_finished())), _ => false };
         if std::env::var("VERIF_TRACE").is_ok() { eprintln!("op {k_op}"); }
         match op {
             MOp::Adv(d) => { now += d; vh::set_now_ns(now); }
@@ -325,6 +329,7 @@ pub fn run_case(c: &Case) -> (String, String) {
             let found = (at..rows.len()).find(|&i| i + chunks.len() <= rows.len() && (0..chunks.len()).all(|j| rows[i + j] == chunks[j]));
             match found { Some(i) => at = i + chunks.len(), None => { verdict = format!("FAIL C03 log-missing op={k_op} {} line={l:?} screen={}", op.enc(), show_rows(&rows)); break; } }
         }
+        if ordinary && rec.flushes() > flushes_before { ordinary_frames.push(now); }
         // C02 (only without rate limiting and bottom alignment): below the log, every live bar that has been
         // drawn appears exactly once, in logical order; every other row is the final rendering of a dropped bar
         if rec.flushes() > flushes_before && !matches!(op, MOp::MpClear) { cleared_since_draw = false; lingering.clear(); }
@@ -371,6 +376,14 @@ pub fn run_case(c: &Case) -> (String, String) {
     if verdict == "ok" && !lingering.is_empty() && rec.flushes() > 0 && !retargeted {
         let rows = rec.rows();
         if let Some(r) = lingering.iter().find(|r| !r.is_empty() && rows.contains(r)) { verdict = format!("FAIL C02 removed-lines-linger row={r:?} screen={}", show_rows(&rows)); }
+    }
+    // the frame-rate bound of C05 over every window delimited by two such frames (one limiter: not after set_draw_target)
+    if verdict == "ok" && c.hz > 0 && !retargeted {
+        let r = c.hz as u128;
+        'w: for i in 0..ordinary_frames.len() { for j in i..ordinary_frames.len() {
+            let k = (j - i + 1) as u128; let t_ns = (ordinary_frames[j] - ordinary_frames[i]) as u128;
+            if k > 21 && (k - 21) * 1_000_000_000 > r * t_ns { verdict = format!("FAIL C05 frame-rate {k} frames painted by ordinary requests within {t_ns} ns at {} Hz (bound 20 + R*T + 1)", c.hz); break 'w; }
+        } }
     }
     let st = rec.st.lock().unwrap();
     let snaps: Vec<String> = st.snapshots.iter().zip(st.cursor_at_flush.iter()).map(|(rows, (r, cc))| format!("{r},{cc} {}", show_rows(rows))).collect();
@@ -437,6 +450,8 @@ fn gen_throttle_scenario(rng: &mut Rng) -> Case {
         ops.push(MOp::Adv(1_000_000_000 / hz as u64 + 1));
         ops.push(MOp::Bar(0, BOp::Tick));
     }
+    // the bars are cleared now and then while they keep being updated: a cleared frame is not a reason to paint outside the budget
+    if rng.chance(1, 2) { for _ in 0..rng.range(25, 40) { ops.push(MOp::MpClear); ops.push(MOp::Bar(0, BOp::Tick)); if rng.chance(1, 3) { ops.push(MOp::Bar(1, BOp::Msg("c".into()))); } } }
     if rng.chance(1, 2) { ops.push(MOp::MpPrintln("L1".into())); }
     Case { w, h: 24, hz, ops, small: false }
 }
